@@ -313,3 +313,13 @@ Proof.
     + destruct (accept op x y) as [[]| | |] eqn:E; cbn; try discriminate. intros H. constructor; [exact E|]. now apply IH.
     + intros H. inversion H as [|? ? H1 H2]; subst. cbn in H1. rewrite H1. cbn. now apply IH.
 Qed.
+
+(* errors are not swallowed by sort: an element comparable with no other element (a NaN, a string
+   among numbers, ...) makes the sort of any list of two or more elements raise, wherever it stands *)
+Theorem sort_isolated_raises pre x post : pre ++ post <> [] ->
+  (forall y, In y (pre ++ post) -> obj_partial_cmp x y = None /\ obj_partial_cmp y x = None) ->
+  sorted_objs (pre ++ x :: post) = Err EValue.
+Proof.
+  intros NE Iso. unfold sorted_objs.
+  now rewrite (isort_isolated_fails obj_partial_cmp (fun x => x) pre x post NE Iso).
+Qed.
